@@ -133,6 +133,14 @@ func (k *comparer) cmpField(f *field, pre, exp, got reflect.Value, cv *cval, pc 
 		case absent && !k.sameRef(pre, got):
 			k.violate(unm+":identity", path, exp, got, " (equal pointee, another pointer)")
 		case absent:
+		case got.IsNil() && f.inline:
+			// the inlined pointer was not allocated although the configuration
+			// has settings for fields of its struct
+			sig := men + ":inline-pointer-left-nil"
+			if onlyAfterNestedInline(f.sub, cv) {
+				sig += ":settings-only-after-a-nested-inline-struct"
+			}
+			k.violate(sig, path, exp, got, fmt.Sprintf(" (settings %s)", renderGo(cv.toGo())))
 		case got.IsNil():
 			k.violate(men, path, exp, got, "")
 		default:
@@ -236,9 +244,28 @@ func (k *comparer) cmpField(f *field, pre, exp, got reflect.Value, cv *cval, pc 
 			}
 		}
 	case kMapPrim, kMapPtrStruct, kMapStruct:
+		withInit := implementsPtr(f.typ, tIniter)
 		switch {
+		case absent && withInit && (!pre.IsValid() || pre.IsNil()):
+			// InitDefaults needs a map to work on: nil may have become empty
+			if !equal(exp, got, false) {
+				k.violate(unm, path, exp, got, "")
+			}
 		case absent && !equal(exp, got, true):
-			k.violate(unm, path, exp, got, "")
+			sig := unm
+			if withInit && pre.IsValid() && pre.Len() > 0 {
+				gone := true
+				for _, key := range pre.MapKeys() {
+					if got.Kind() == reflect.Map && !got.IsNil() && got.MapIndex(key).IsValid() {
+						gone = false
+					}
+				}
+				if gone {
+					// none of the entries it held is left: the map was exchanged
+					sig += ":old-entries-gone:policy-" + pc.pol
+				}
+			}
+			k.violate(sig, path, exp, got, "")
 		case absent && !k.sameRef(pre, got):
 			k.violate(unm+":identity", path, exp, got, " (equal contents, another map)")
 		case absent:
@@ -295,6 +322,31 @@ func (k *comparer) cmpField(f *field, pre, exp, got reflect.Value, cv *cval, pc 
 			}
 		}
 	}
+}
+
+// onlyAfterNestedInline: the settings for the struct st all belong to fields
+// declared after a struct inlined into it, of which nothing is mentioned.
+func onlyAfterNestedInline(st *stype, c *cval) bool {
+	if c == nil {
+		return false
+	}
+	passed := false
+	for _, f := range st.fields {
+		if f.unexported || f.ignore {
+			continue
+		}
+		cv := c.fields[f]
+		isInlineStruct := f.inline && (f.kind == kStruct || f.kind == kPtrStruct)
+		switch {
+		case isInlineStruct && (cv == nil || cv.real == 0):
+			passed = true
+		case isInlineStruct:
+			return false
+		case !cv.absent():
+			return passed
+		}
+	}
+	return false
 }
 
 func h0(pre reflect.Value, t reflect.Type) reflect.Value {
